@@ -44,8 +44,9 @@ CHECKS = {
         design_ref="DESIGN.md §2 C03",
         note="Depth-bounded for the whole-curve layer; the fresh-object "
              "oracle cannot see errors a fresh object shares (C02/C04/C05). "
-             "Known finding D13 (stale result columns) is listed in "
-             "known_findings.json.",
+             "Known findings D13 (stale result columns) and D28 / D28b "
+             "(direct edits of the two pipeline settings cannot reach the "
+             "curve) are listed in known_findings.json.",
         technique="explicit-state BFS over operation histories of the real "
                   "object, canonical-state dedup, differential fresh-object "
                   "oracle; closure search of the settings store",
@@ -463,7 +464,7 @@ def build():
              "kind_free_text": "closure (fixpoint) search of small dictionary-like stores against a reference model"},
         ],
         "checks": checks,
-        "notes": "All checks run the real nanite code from /repo/src (no build step). Exit 0 = held, 1 = VIOLATION (every reported counterexample was re-executed and reproduced in a fresh interpreter), 2 = harness error (no verdict). known_findings.json lists genuine defects (fixed ones with their fix: commit). seeded/ holds 267 confirmed property-breaking changes with the checks' results (seeded/MATRIX.md); tools/seedtest.py re-runs them.",
+        "notes": "All checks run the real nanite code from /repo/src (no build step). Exit 0 = held, 1 = VIOLATION (every reported counterexample was re-executed and reproduced in a fresh interpreter), 2 = harness error (no verdict). known_findings.json lists genuine defects (fixed ones with their fix: commit). seeded/ holds 268 confirmed property-breaking changes with the checks' results (seeded/MATRIX.md); tools/seedtest.py re-runs them.",
         "not_applicable": [{"property_id": p, "reason": NA_REASON}
                            for p in ALL if p not in CHECKS],
     }
